@@ -17,6 +17,9 @@ var impls = map[string]func(string) string{
 	"fmt.next":       implFmtNext,
 	"hash":           implHash,
 	"ip.ops":         implIpOps,
+	"http.chunk":     implHTTP,
+	"http.index":     implHTTP,
+	"sparse.ops":     implSparseOps,
 	"verify.index":   implVerifyIndex,
 	"arch.untar":     implUntar,
 	"arch.tar":       implTar,
